@@ -82,7 +82,10 @@ func hsCell(t *testing.T, rec *Rec, g *Gates, scn string, cell map[string]any) {
 		var ws *WSClient
 		fmtOK := true
 		collect := func(ps []Pkt) { pkts = append(pkts, ps...) }
-		if cell["transport"] == "websocket" {
+		if cell["transport"] == "webtransport" {
+			ws = w.DialWT(s, func(_ *WSClient, p Pkt) { collect([]Pkt{p}) })
+			synctest.Wait()
+		} else if cell["transport"] == "websocket" {
 			qq := "transport=websocket" + eioQ
 			if b64 {
 				qq += "&b64=1"
